@@ -197,6 +197,7 @@ def register(R: Registry):
           ensures=[("equal-content-in-fresh-storage", copy_post)])
 
     register_path(R, path_obj)
+    register_handles(R, path_obj)
 
 
 
@@ -361,3 +362,279 @@ def register_path(R, path_obj):
                    ("slice-gives-the-handles-of-exactly-the-sliced-positions-in-order", by_form(None, slice_post, None)),
                    ("name-gives-a-fresh-gather-of-the-owner-column-in-window-order", by_form(None, None, str_post))],
           options=dict(OPTS))
+
+    # ------------------------------------------------------------------ Path.id / pid (re-indexed), origin_id / origin_pid
+    def arange_post(first):
+        def f(E, v, o):
+            r, n = v["result"], pidx(v["self"]).nz()
+            if not isinstance(r, SArr) or r.kind != "int" or r.uid in E.entry_uids:
+                return False
+            j = qj()
+            return z3.And(r.nz() == n, z3.ForAll([j], z3.Implies(z3.And(j >= 0, j < n), r.get(j).z == j + first)))
+
+        return f
+
+    R.add(f"{PATH}:Path.id", prop="C09", setup=lambda S: dict(self=sym_path(S)), requires=PRE,
+          ensures=[("window-positions-renumbered-0..len-1-in-a-fresh-array", arange_post(0))])
+    R.add(f"{PATH}:Path.pid", prop="C09", setup=lambda S: dict(self=sym_path(S)), requires=PRE,
+          ensures=[("each-position-has-its-predecessor-as-parent-first-has--1-in-a-fresh-array", arange_post(-1))])
+
+    def origin_post(which):
+        def f(E, v, o):
+            p = v["self"]
+            c = col(p.fields["attach"], which)
+            idx, r = pidx(p), v["result"]
+            j = qj()
+            return z3.And(r.nz() == idx.nz(), r.uid not in E.entry_uids,
+                          z3.ForAll([j], z3.Implies(z3.And(j >= 0, j < idx.nz()), r.get(j).z == z3.Select(c.arr, idx.get(j).z))))
+
+        return f
+
+    R.add(f"{PATH}:Path.origin_id", prop="C09", setup=lambda S: dict(self=sym_path(S)), requires=PRE,
+          ensures=[("the-owner's-ids-of-the-window-rows-in-order", origin_post("id"))])
+    R.add(f"{PATH}:Path.origin_pid", prop="C09", setup=lambda S: dict(self=sym_path(S)), requires=PRE,
+          ensures=[("the-owner's-parent-ids-of-the-window-rows-in-order", origin_post("pid"))])
+
+    # ------------------------------------------------------------------ Path.keys
+    def keys_post(E, v, o):
+        r, t = v["result"], v["self"].fields["attach"]
+        return isinstance(r, PList) and r.items == list(t.fields["ndata"].items.keys())
+
+    R.add(f"{PATH}:Path.keys", prop="C09", setup=lambda S: dict(self=path_obj(S, sym_tree(S, "t", extra_cols=("level",)))),
+          ensures=[("exactly-the-owner's-column-names-in-the-owner's-order", keys_post)])
+
+    # ------------------------------------------------------------------ Path.__iter__
+    def iter_post(E, v, o):
+        p, h = v["self"], handles(v)
+        if h is None or h.cls_ is not Path.Node or h.fixed.get("attach") is not p or h.fixed.get("names") is not p.fields["names"]:
+            return False
+        k, n = qj("k"), pidx(p).nz()
+        return z3.And(zint(h.n) == n, z3.ForAll([k], z3.Implies(z3.And(k >= 0, k < n), z3.Select(h.col("idx"), k) == k)))
+
+    R.add(f"{PATH}:Path.__iter__", prop="C09", setup=lambda S: dict(self=sym_path(S)), requires=PRE,
+          ensures=[("one-handle-per-window-position-in-order", iter_post)], options=dict(OPTS))
+
+    # ------------------------------------------------------------------ Path.detach
+    R.add(f"{PATH}:Path.detach", prop="C09",
+          setup=lambda S: dict(self=path_obj(S, sym_tree(S, "t", extra_cols=("level",)))), requires=PRE,
+          ensures=detach_clauses(Path, window_len=lambda p: pidx(p).nz(), window_pos=lambda p, j: pidx(p).get(j).z), options=dict(OPTS))
+
+
+def owned_arrays(x):
+    """every array reachable from a detached view: its position array and the columns of its private owner"""
+    return [x.fields["idx"]] + list(x.fields["attach"].fields["ndata"].items.values())
+
+
+def fresh_and_separate(E, arrs):
+    """ownership: every array was allocated by this call (not an input's storage, not a view onto anything) and no two share storage"""
+    uids = [a.uid for a in arrs]
+    return all(isinstance(a, (SArr, NArr)) and a.uid not in E.entry_uids and getattr(a, "view_of", None) is None for a in arrs) and len(set(uids)) == len(uids)
+
+
+def unchanged(E, now, old):
+    """the owner's columns are the same allocations with the same content as at entry, and the same set of columns"""
+    nd1, nd0 = now.fields["ndata"].items, old.fields["ndata"].items
+    if list(nd1) != list(nd0):
+        return False
+    out = []
+    for k in nd1:
+        a1, a0 = nd1[k], nd0[k]
+        if a1.uid != a0.uid:
+            return False
+        if isinstance(a1, SArr):
+            out.append(z3.And(a1.nz() == a0.nz(), a1.arr == a0.arr))
+        else:
+            out.append(z3.And(*[to_z3(x, a1.kind) == to_z3(y, a1.kind) for x, y in zip(a1.items, a0.items)]) if len(a1.items) == len(a0.items) else False)
+    return z3.And(*out)
+
+
+def detach_clauses(cls, window_len, window_pos, owner_of=lambda p: p.fields["attach"]):
+    """postconditions shared by Path.detach / Branch.detach: `window_len(p)` positions, the j-th being row `window_pos(p, j)` of the owner"""
+    from swcgeom.core.swc import DictSWC
+
+    def shape(E, v, o):
+        r, p = v["result"], v["self"]
+        if not (isinstance(r, Obj) and r.cls is cls and isinstance(r.fields.get("attach"), Obj) and r.fields["attach"].cls is DictSWC):
+            return False
+        a = r.fields["attach"]
+        return (r is not p and a is not owner_of(p) and a.uid not in E.entry_uids and r.fields.get("names") is p.fields["names"] and a.fields.get("names") is p.fields["names"]
+                and a.fields.get("source") == p.fields["source"] and r.fields.get("source") == p.fields["source"]
+                and list(a.fields["ndata"].items) == list(owner_of(p).fields["ndata"].items))
+
+    def content(E, v, o):
+        r, p = v["result"], o["self"]
+        t, n = owner_of(p), window_len(p)
+        nd = r.fields["attach"].fields["ndata"].items
+        j = qj()
+        out = []
+        for k, a in nd.items():
+            if not isinstance(a, SArr):
+                return False
+            if k == "id":
+                want = lambda jj: jj
+            elif k == "pid":
+                want = lambda jj: jj - 1
+            else:
+                want = lambda jj, _c=col(t, k): to_z3(_c.get(window_pos(p, jj)), a.kind)
+            out.append(z3.And(a.nz() == n, z3.ForAll([j], z3.Implies(z3.And(j >= 0, j < n), a.get(j).z == want(j)))))
+        return z3.And(*out)
+
+    def positions(E, v, o):
+        r, n = v["result"], window_len(o["self"])
+        a, j = r.fields["idx"], qj()
+        return z3.And(a.nz() == n, z3.ForAll([j], z3.Implies(z3.And(j >= 0, j < n), a.get(j).z == j)))
+
+    return [("a-new-view-of-the-same-class-on-a-private-DictSWC-with-the-owner's-columns", shape),
+            ("every-column-equals-the-window's-rows-in-order-ids-renumbered", content),
+            ("the-new-window-is-all-of-its-private-owner-in-order", positions),
+            ("fresh-storage-nothing-shared-with-the-original-or-between-columns", lambda E, v, o: fresh_and_separate(E, owned_arrays(v["result"]))),
+            ("original-view-and-owner-untouched", lambda E, v, o: z3.And(unchanged(E, owner_of(v["self"]), owner_of(o["self"])), pidx(v["self"]).uid == pidx(o["self"]).uid, pidx(v["self"]).arr == pidx(o["self"]).arr))]
+
+
+# =====================================================================================================================
+# handles with a wrapped (negative) position, and handles of a path
+def register_handles(R, path_obj):
+    from swcgeom.core.path import Path
+    from swcgeom.core.tree import Tree
+
+    LOOSE = dict(strict_index=False)  # a negative position is numpy's wrapped index, not an error
+
+    def wrapped(i, n):
+        return z3.If(i < 0, i + n, i)
+
+    def any_position(E, v, o):
+        n = v["self"]
+        i = to_z3(n.fields["idx"], "int")
+        return z3.And(i >= -nof(n.fields["attach"]), i < nof(n.fields["attach"]))
+
+    # Tree.node(i) does not normalise i: a handle may carry a position in [-n, 0); every access then wraps like numpy
+    def reads_wrapped(E, v, o):
+        n = v["self"]
+        c = col(n.fields["attach"], v["key"])
+        return to_z3(v["result"], c.kind) == z3.Select(c.arr, wrapped(to_z3(n.fields["idx"], "int"), c.nz()))
+
+    R.add(f"{NODE}:Node.__getitem__", prop="C09", pure_inline=True,
+          variants={k: (lambda S, _k=k: dict(self=node_obj(S, sym_tree(S, "t", frozen=True)), key=_k)) for k in KEYS},
+          requires=[("handle-position-in-[-n,n)", any_position)],
+          ensures=[("reads-the-owner-column-at-the-wrapped-position-at-call-time", reads_wrapped)], options=dict(LOOSE))
+
+    def writes_wrapped(E, v, o):
+        n, n0 = v["self"], o["self"]
+        t, t0 = n.fields["attach"], n0.fields["attach"]
+        i = wrapped(to_z3(n0.fields["idx"], "int"), nof(t0))
+        j = qj()
+        out = []
+        for c in KEYS:
+            a1, a0 = col(t, c), col(t0, c)
+            if a1.uid != a0.uid:
+                return False
+            rng = z3.And(j >= 0, j < nof(t0))
+            if c == v["k"]:
+                out.append(z3.And(z3.Select(a1.arr, i) == to_z3(v["v"], a1.kind), z3.ForAll([j], z3.Implies(z3.And(rng, j != i), z3.Select(a1.arr, j) == z3.Select(a0.arr, j)))))
+            else:
+                out.append(z3.ForAll([j], z3.Implies(rng, z3.Select(a1.arr, j) == z3.Select(a0.arr, j))))
+        return z3.And(*out)
+
+    R.add(f"{NODE}:Node.__setitem__", prop="C09", pure_inline=True,
+          variants={k: (lambda S, _k=k: dict(self=node_obj(S, sym_tree(S, "t", frozen=False)), k=_k, v=(S.int("v") if COLS[_k] == "int" else S.real("v")))) for k in KEYS},
+          requires=[("handle-position-in-[-n,n)", any_position)],
+          ensures=[("write-through-at-the-wrapped-position-and-nothing-else", writes_wrapped)], options=dict(LOOSE))
+
+    # a node of a path: position i of the window, i.e. row idx[i] of the owner
+    def pnode(S):
+        p = path_obj(S, sym_tree(S, "t", frozen=True))
+        return S.obj(Path.Node, attach=p, idx=S.int("i"), names=p.fields["names"])
+
+    def pnode_pre(E, v, o):
+        h = v["self"]
+        p = h.fields["attach"]
+        idx, t, i = pidx(p), p.fields["attach"], to_z3(h.fields["idx"], "int")
+        j = qj()
+        return z3.And(i >= -idx.nz(), i < idx.nz(), z3.ForAll([j], z3.Implies(z3.And(j >= 0, j < idx.nz()), z3.And(idx.get(j).z >= 0, idx.get(j).z < nof(t)))))
+
+    def pnode_reads(E, v, o):
+        h = v["self"]
+        p = h.fields["attach"]
+        c = col(p.fields["attach"], v["key"])
+        i = wrapped(to_z3(h.fields["idx"], "int"), pidx(p).nz())
+        return to_z3(v["result"], c.kind) == z3.Select(c.arr, pidx(p).get(i).z)
+
+    R.add(f"{NODE}:Node.__getitem__", prop="C09", pure_inline=True,
+          variants={k: (lambda S, _k=k: dict(self=pnode(S), key=_k)) for k in KEYS},
+          requires=[("position-within-the-window-window-within-the-owner", pnode_pre)],
+          ensures=[("path-node-reads-the-owner's-row-its-window-position-names-at-call-time", pnode_reads)], options=dict(LOOSE))
+
+    # ------------------------------------------------------------------ Node.detach / xyz / xyzr / keys
+    from swcgeom.core.node import Node
+    from swcgeom.core.swc import DictSWC
+
+    def tnode(S):
+        return node_obj(S, sym_tree(S, "t", frozen=True, extra_cols=("level",)))
+
+    def pnode_x(S):
+        p = path_obj(S, sym_tree(S, "t", frozen=True, extra_cols=("level",)))
+        return S.obj(Path.Node, attach=p, idx=S.int("i"), names=p.fields["names"])
+
+    def node_pre(E, v, o):
+        return pnode_pre(E, v, o) if v["self"].cls is Path.Node else in_range(E, v, o)
+
+    def owner_and_row(h):
+        """(the DictSWC that finally owns the data, the row of it the handle stands for)"""
+        a, i = h.fields["attach"], to_z3(h.fields["idx"], "int")
+        if a.cls is Tree or "ndata" in a.fields:
+            return a, i
+        return a.fields["attach"], pidx(a).get(wrapped(i, pidx(a).nz())).z
+
+    def node_detach_shape(E, v, o):
+        r, h = v["result"], v["self"]
+        t, _ = owner_and_row(h)
+        if not (isinstance(r, Obj) and r.cls is Node and r is not h and isinstance(r.fields.get("attach"), Obj) and r.fields["attach"].cls is DictSWC):
+            return False
+        a = r.fields["attach"]
+        return (a.uid not in E.entry_uids and r.fields.get("idx") == 0 and r.fields.get("names") is h.fields["names"] and a.fields.get("names") is h.fields["names"]
+                and a.fields.get("source") == h.fields["attach"].fields["source"] and list(a.fields["ndata"].items) == list(t.fields["ndata"].items))
+
+    def node_detach_content(E, v, o):
+        r, h = v["result"], o["self"]
+        t, row = owner_and_row(h)
+        out = []
+        for k, a in r.fields["attach"].fields["ndata"].items.items():
+            if not (isinstance(a, NArr) and a.shape == (1,)):
+                return False
+            want = z3.IntVal(0) if k == "id" else (z3.IntVal(-1) if k == "pid" else z3.Select(col(t, k).arr, row))
+            out.append(to_z3(a.items[0], a.kind) == want)
+        return z3.And(*out)
+
+    R.add(f"{NODE}:Node.detach", prop="C09",
+          variants={"tree-node": lambda S: dict(self=tnode(S)), "path-node": lambda S: dict(self=pnode_x(S))},
+          requires=[("handle-refers-to-a-row-of-its-owner", node_pre)],
+          ensures=[("a-plain-Node-at-position-0-of-a-private-one-row-DictSWC-with-the-owner's-columns", node_detach_shape),
+                   ("every-column-holds-the-node's-value-id-0-parent--1", node_detach_content),
+                   ("fresh-storage-nothing-shared-with-the-original-or-between-columns", lambda E, v, o: fresh_and_separate(E, list(v["result"].fields["attach"].fields["ndata"].items.values()))),
+                   ("original-owner-untouched", lambda E, v, o: unchanged(E, owner_and_row(v["self"])[0], owner_and_row(o["self"])[0]))],
+          options=dict(LOOSE))
+
+    def vec_post(names):
+        def f(E, v, o):
+            r, h = v["result"], v["self"]
+            t, row = owner_and_row(h)
+            if not (isinstance(r, NArr) and r.shape == (len(names),) and r.kind == "real" and r.uid not in E.entry_uids and r.view_of is None):
+                return False
+            return z3.And(*[to_z3(x, "real") == z3.Select(col(t, k).arr, row) for x, k in zip(r.items, names)])
+
+        return f
+
+    for fn, names in (("xyz", ("x", "y", "z")), ("xyzr", ("x", "y", "z", "r"))):
+        R.add(f"{NODE}:Node.{fn}", prop="C09",
+              variants={"tree-node": lambda S: dict(self=tnode(S)), "path-node": lambda S: dict(self=pnode_x(S))},
+              requires=[("handle-refers-to-a-row-of-its-owner", node_pre)],
+              ensures=[(f"fresh-vector-of-the-node's-{'-'.join(names)}-read-at-call-time", vec_post(names))], options=dict(LOOSE))
+
+    def nkeys_post(E, v, o):
+        r = v["result"]
+        t, _ = owner_and_row(v["self"])
+        return isinstance(r, PList) and r.items == list(t.fields["ndata"].items.keys())
+
+    R.add(f"{NODE}:Node.keys", prop="C09",
+          variants={"tree-node": lambda S: dict(self=tnode(S)), "path-node": lambda S: dict(self=pnode_x(S))},
+          ensures=[("exactly-the-owner's-column-names-in-the-owner's-order", nkeys_post)])
